@@ -332,6 +332,8 @@ impl ActorCell {
     /// Returns the status observed immediately before the update.
     pub(crate) fn set_status(&self, status: ActorStatus) -> ActorStatus {
         let previous_status = self.inner.set_status(status);
+        #[cfg(slawlor_ractor_verif)]
+        crate::actor::verif::point("status.after_publish");
 
         // The actor is shut down — only run cleanup once, on the first transition
         // to Stopping. Publish the new status before cleanup so concurrent PG
